@@ -171,8 +171,8 @@ def auto_discharge(facts, s, cache):
                         return "subtraction dominated by the guard `%s %s %s` (other arm)" % (x, op, y)
         return None
     # 2. Regex::new(<literal>).unwrap() when the literal compiles
-    if s["kind"] == "call" and s["op"] == "unwrap" and "new(" in sig and b.id.endswith("__static_ref_initialize"):
-        lits = rx.regex_literals(facts, re.escape(b.id) + "$")
+    if s["kind"] == "call" and s["op"] == "unwrap" and sig.startswith("unwrap(new('"):
+        lits = [(c, l) for (c, l) in rx.regex_literals(facts, re.escape(b.id) + "$") if c.dst["l"] == op_place(s["call"].args[0])["l"]]
         if len(lits) == 1 and lits[0][1] is not None:
             i = rx.info(lits[0][1])
             if i.get("ok"):
